@@ -41,6 +41,8 @@ type state struct {
 	open     map[*File]struct{}
 	failAt   map[int]error // inject an error instead of performing mutating call k
 	failCut  map[int]int   // with failAt on a write: that many bytes reach the file before the error (a short write)
+	nread    int           // read-side calls so far (stat, open, readfile, readdir, File.Read)
+	failRead map[int]error // read-side call k returns this error once (a transient read failure)
 }
 
 var st = state{open: map[*File]struct{}{}}
@@ -57,6 +59,8 @@ func Reset(logOn bool) {
 	st.crashed = false
 	st.failAt = nil
 	st.failCut = nil
+	st.nread = 0
+	st.failRead = nil
 	for f := range st.open {
 		_ = f.f.Close()
 	}
@@ -84,6 +88,18 @@ func FailShortAt(k, cut int, err error) {
 	}
 	st.failCut[k] = cut
 }
+
+// FailReadAt makes read-side call k (counted from the last Reset: stat, lstat, open, readfile, readdir and every
+// File.Read) return err once.
+func FailReadAt(k int, err error) {
+	if st.failRead == nil {
+		st.failRead = map[int]error{}
+	}
+	st.failRead[k] = err
+}
+
+// ReadCount is the number of read-side calls so far.
+func ReadCount() int { return st.nread }
 
 func Crashed() bool { return st.crashed }
 
@@ -147,6 +163,13 @@ func pre(kind, path, path2 string, mut bool, n int) (int, int, error) {
 	if st.logOn {
 		st.log = append(st.log, Op{Kind: kind, Path: path, Path2: path2, Mut: mut, N: n, Thread: vrt.Cur(), Seq: seq})
 	}
+	if !mut {
+		st.nread++
+		if err, ok := st.failRead[st.nread]; ok {
+			// as the os package reports it: a *fs.PathError around the errno
+			return 0, -1, &fs.PathError{Op: kind, Path: path, Err: err}
+		}
+	}
 	if mut {
 		if err, ok := st.failAt[seq]; ok {
 			return seq, -1, err
@@ -197,9 +220,17 @@ func (f *File) Name() string { return f.name }
 
 func (f *File) Fd() uintptr { return f.f.Fd() }
 
+//go:norace
 func (f *File) Read(p []byte) (int, error) {
 	if f == nil {
 		return 0, os.ErrInvalid
+	}
+	if vrt.IsControlled() && !st.crashed && st.failRead != nil {
+		// counted only while a read fault is armed: no scheduling point, the numbering of the other runs is unchanged
+		st.nread++
+		if err, ok := st.failRead[st.nread]; ok {
+			return 0, &fs.PathError{Op: "read", Path: f.name, Err: err}
+		}
 	}
 	return f.f.Read(p)
 }
